@@ -330,6 +330,8 @@ def run(tier):
         "two visible declarations of one name in one importer (name clash) are outside the property: counted, not judged",
         "the order among the modules of one directory import is judged only by the model law (filepath.WalkDir order), all other laws are order-free there",
         "dispose order at program end is not observed",
+        "an unexpected rejection / kddp failure on a program that must be accepted is re-tried twice before it counts (the shared install directory may be "
+        "rebuilt by a concurrent build.sh); only a failure that repeats is reported",
         "executables run with LOCPATH=/verif/build/locale (de_DE.UTF-8 shim)",
     ]
     with Scratch("c10") as sc:
